@@ -33,6 +33,9 @@ func vtr(event string, id bin.Bin128, a, b int64) {
 	}
 }
 
+// vgate is a tracing point without arguments.
+func vgate(event string) { vtr(event, bin.Bin128{}, 0, 0) }
+
 // channel ids by channel object: a released channel has no state to read its id from
 var verifIDs sync.Map // *channel -> bin.Bin128
 
